@@ -63,7 +63,7 @@ CLAIMS = {
                  "imply parse (to_string p) = ok p, where MediaOpen consists of facts about Rust's float formatting only (each EXTINF / DATERANGE duration, "
                  "the EXT-X-START offset and float-valued client attributes read back: FL2 / FL1, validated by sweeps, evaluated by the kernel on the concrete "
                  "example) plus 'SCTE35 values are plain tokens' (true of valid text). LineRT is proved for EVERY line kind the writer emits (Proofs/LineRT*, "
-                 "TagRT, DateRangeRT). example_media: a concrete playlist meets all hypotheses and round-trips at string level. k2_counterexample - the statement "
+                 "TagRT, DateRangeRT). example_media: a concrete playlist meets all hypotheses and round-trips at string level. media_roundtrip_general / media_fixed_point_general - WITHOUT NoK2: for every parsed p, parse (to_string p) = ok (fixMaps p), where fixMaps only re-covers each EXT-X-MAP with the keys of its own segment, and to_string (fixMaps p) = to_string p: finding K2 is thereby characterised exactly. k2_counterexample - the statement "
                  "without NoK2 is false (recorded finding K2); k3_repaired - the former finding K3 now round-trips; control_roundtrip - non-vacuity. Tie + "
                  "oracle: EVERY key/map/segment event sequence over an 11-letter alphabet up to the length bound, long random histories with IV / "
                  "KEYFORMATVERSIONS, generated playlists with all 17 tags and the fixtures, through try_from -> to_string -> try_from -> to_string on library and "
